@@ -20,6 +20,7 @@ import (
 	"io"
 	"math/rand"
 	"os"
+	"regexp"
 	"runtime"
 	rt "runtime/trace"
 	"sort"
@@ -38,26 +39,31 @@ import (
 
 // Scenario is one workload on one shared span (+ optional gate script).
 type Scenario struct {
-	Name      string   `json:"name,omitempty"`
-	RT        bool     `json:"rt"`       // runtime/trace started before the span is started
-	NProcs    int      `json:"nprocs"`   // registered recording processors
-	Enders    int      `json:"enders"`   // goroutines calling End
-	EndsPer   int      `json:"endsPer"`  // sequential End calls per ender (default 1)
-	TS        bool     `json:"ts"`       // End(WithTimestamp(t_k)), k unique per call
-	Muts      []string `json:"muts"`     // one mutator goroutine per entry: kind of its first call
-	MutsPer   int      `json:"mutsPer"`  // calls per mutator (default 1); later calls use attrs/event/link/error
-	Children  int      `json:"children"` // goroutines starting (and ending) a child span
-	Readers   int      `json:"readers"`  // goroutines calling IsRecording
-	ReadsPer  int      `json:"readsPer"`
-	ETimers   int      `json:"etimers"`   // goroutines reading ReadWriteSpan.EndTime()
-	Provs     int      `json:"provs"`     // goroutines using the provider concurrently (Tracer, Register/Unregister, ForceFlush)
-	Regs      int      `json:"regs"`      // goroutines g<i> registering one more recording processor p<nprocs+i> each
-	Lim       int      `json:"lim"`       // >0: Event/Link/AttributeCountLimit = lim and lim events, links, attributes recorded beforehand (queues full)
-	Panickers int      `json:"panickers"` // the first k enders call End as a deferred call during a panic (recover branch of End)
-	Perturb   float64  `json:"perturb"`
-	Tight     bool     `json:"tight"` // no jitter: all goroutines spin on a barrier and make their first call together
-	Script    []string `json:"script,omitempty"`
-	Seed      int64    `json:"seed"`
+	Name       string   `json:"name,omitempty"`
+	RT         bool     `json:"rt"`       // runtime/trace started before the span is started
+	NProcs     int      `json:"nprocs"`   // registered recording processors
+	Enders     int      `json:"enders"`   // goroutines calling End
+	EndsPer    int      `json:"endsPer"`  // sequential End calls per ender (default 1)
+	TS         bool     `json:"ts"`       // End(WithTimestamp(t_k)), k unique per call
+	Muts       []string `json:"muts"`     // one mutator goroutine per entry: kind of its first call
+	MutsPer    int      `json:"mutsPer"`  // calls per mutator (default 1); later calls use attrs/event/link/error
+	Children   int      `json:"children"` // goroutines starting (and ending) a child span
+	Readers    int      `json:"readers"`  // goroutines calling IsRecording
+	ReadsPer   int      `json:"readsPer"`
+	ETimers    int      `json:"etimers"`    // goroutines reading ReadWriteSpan.EndTime()
+	Provs      int      `json:"provs"`      // goroutines using the provider concurrently (Tracer, Register/Unregister, ForceFlush)
+	Regs       int      `json:"regs"`       // goroutines g<i> registering one more recording processor p<nprocs+i> each
+	Lim        int      `json:"lim"`        // >0: Event/Link/AttributeCountLimit = lim and lim events, links, attributes recorded beforehand (queues full)
+	Panickers  int      `json:"panickers"`  // the first k enders call End as a deferred call during a panic (recover branch of End)
+	RecordOnly bool     `json:"recordOnly"` // the sampler answers RecordOnly: recording, not sampled (Drop = non-recording: out of scope)
+	Stoppers   int      `json:"stoppers"`   // goroutines s<i> calling TracerProvider.Shutdown
+	Unregs     int      `json:"unregs"`     // goroutines u<i> calling UnregisterSpanProcessor(p1)
+	ReentReg   bool     `json:"reentReg"`   // p1's Shutdown calls RegisterSpanProcessor (re-entrant use from a callback)
+	WaitFor    int      `json:"waitFor"`    // the last k registrars are workers started by p1's Shutdown, which waits for them
+	Perturb    float64  `json:"perturb"`
+	Tight      bool     `json:"tight"` // no jitter: all goroutines spin on a barrier and make their first call together
+	Script     []string `json:"script,omitempty"`
+	Seed       int64    `json:"seed"`
 }
 
 var tsBase = time.Date(2030, 1, 1, 0, 0, 0, 0, time.UTC)
@@ -113,6 +119,8 @@ type scState struct {
 	tw       *vh.TraceWriter
 	sched    *vh.Sched
 	scripted bool
+	sc       Scenario
+	live     sync.Map // names of the scenario's goroutines that have not finished
 	lim      int
 	endRets  atomic.Int64 // End calls on the shared span that have returned
 	mu       sync.Mutex
@@ -125,6 +133,148 @@ type scState struct {
 	handed []int // per processor: OnEnd calls
 	nfull  int   // tokens wholly present in the last snapshot handed over
 	child  int   // child count of that snapshot (-1: none yet)
+}
+
+// spawn runs f as a named process of the scenario (known to the hooks, the processors and the watchdog).
+func (st *scState) spawn(name string, wg *sync.WaitGroup, f func(name string)) {
+	st.live.Store(name, true)
+	go func() {
+		id := goid()
+		procs.Store(id, &procInfo{name: name, st: st})
+		defer wg.Done()
+		defer st.live.Delete(name)
+		defer procs.Delete(id)
+		defer func() {
+			if x := recover(); x != nil {
+				st.emit(map[string]any{"ev": "Panic", "proc": name, "span": 1, "msg": fmt.Sprint(x)})
+			}
+		}()
+		f(name)
+	}()
+}
+
+// watch waits for wg. If the scenario has not finished after `bound` it takes two goroutine dumps 3 s apart:
+// deadlock = nobody finished in between, every goroutine of the scenario is parked (not running / runnable) with
+// the same stack in both, and at least one of them sits in sync.Mutex.Lock called from sdk/trace in both.
+// Anything else that does not finish is inconclusive. `where` = for the goroutines blocked on such a lock the
+// chain of API / callback frames, outermost first.
+func (st *scState) watch(wg *sync.WaitGroup, bound, gap time.Duration, res *vh.Result) (stuck bool) {
+	done := make(chan struct{})
+	go func() { wg.Wait(); close(done) }()
+	select {
+	case <-done:
+		return false
+	case <-time.After(bound):
+	}
+	names := func() []string {
+		out := []string{}
+		st.live.Range(func(k, _ any) bool { out = append(out, k.(string)); return true })
+		sort.Strings(out)
+		return out
+	}
+	blocked := names()
+	mine := map[string]bool{} // goroutines of THIS scenario (earlier abandoned ones stay blocked forever)
+	procs.Range(func(k, v any) bool {
+		if v.(*procInfo).st == st {
+			mine[fmt.Sprintf("goroutine %d", k.(uint64))] = true
+		}
+		return true
+	})
+	dump, g1 := goroutines()
+	time.Sleep(gap)
+	_, g2 := goroutines()
+	dead := strings.Join(names(), ",") == strings.Join(blocked, ",") && len(blocked) > 0
+	nlock := 0
+	where, mydump := []string{}, []string{}
+	for id := range mine {
+		a, ok1 := g1[id]
+		b, ok2 := g2[id]
+		if !ok1 || !ok2 {
+			continue
+		}
+		if a.running || b.running || a.stack != b.stack {
+			dead = false
+		}
+		if a.lockInSDK && b.lockInSDK {
+			nlock++
+		}
+		if a.chain != "" {
+			where = append(where, a.chain)
+		}
+		mydump = append(mydump, a.text)
+	}
+	dead = dead && nlock > 0
+	sort.Strings(where)
+	st.emit(map[string]any{"ev": "Stuck", "deadlock": dead, "procs": blocked, "where": strings.Join(where, " | ")})
+	res.Count("scenarios_stuck", 1)
+	res.Sample(map[string]any{"stuck_scenario": st.sc, "blocked": blocked, "where": where, "goroutines": strings.Join(mydump, "\n\n")})
+	_ = dump
+	return true
+}
+
+type gInfo struct {
+	running   bool   // state is running / runnable / syscall
+	lockInSDK bool   // parked in sync.Mutex.Lock called from sdk/trace
+	stack     string // function names, innermost first
+	chain     string // API and callback frames, outermost first: "UnregisterSpanProcessor>proc.Shutdown>Tracer"
+	text      string
+}
+
+var frameRe = regexp.MustCompile(`(?m)^([^\s(][^\n]*)\(`)
+
+func goroutines() (string, map[string]gInfo) {
+	buf := make([]byte, 8<<20)
+	dump := string(buf[:runtime.Stack(buf, true)])
+	out := map[string]gInfo{}
+	for _, g := range strings.Split(dump, "\n\n") {
+		hdr := strings.SplitN(g, "\n", 2)[0]
+		id := strings.SplitN(hdr, " [", 2)[0]
+		state := ""
+		if i := strings.Index(hdr, "["); i >= 0 {
+			state = strings.SplitN(strings.TrimSuffix(hdr[i+1:], "]:"), ",", 2)[0]
+		}
+		var fns, chain []string
+		for _, m := range frameRe.FindAllStringSubmatch(g, -1) {
+			fn := m[1]
+			if strings.HasPrefix(fn, "goroutine ") || strings.HasPrefix(fn, "created by") {
+				continue
+			}
+			fns = append(fns, fn)
+			short := fn[strings.LastIndex(fn, "/")+1:]
+			switch {
+			case strings.HasPrefix(short, "trace.(*TracerProvider)."):
+				chain = append(chain, strings.TrimPrefix(short, "trace.(*TracerProvider)."))
+			case strings.HasPrefix(short, "trace.(*tracer)."):
+				chain = append(chain, "tracer."+strings.TrimPrefix(short, "trace.(*tracer)."))
+			case strings.HasPrefix(short, "trace.(*recordingSpan)."):
+				chain = append(chain, "span."+strings.TrimPrefix(short, "trace.(*recordingSpan)."))
+			case strings.HasPrefix(short, "main.(*recProc).") || strings.HasPrefix(short, "main.(*reProc)."):
+				chain = append(chain, "proc."+strings.SplitN(short[strings.Index(short, ").")+2:], ".", 2)[0])
+			}
+		}
+		norm := chain[:0] // closures and repeated frames of one call collapse: Tracer.func1, Tracer -> Tracer
+		for _, c := range chain {
+			c = regexp.MustCompile(`(\.func\d+)+(\.\d+)*$`).ReplaceAllString(c, "")
+			if c == "proc.run" { // helper of the re-entrant processor
+				continue
+			}
+			if len(norm) == 0 || norm[len(norm)-1] != c {
+				norm = append(norm, c)
+			}
+		}
+		chain = norm
+		for i, j := 0, len(chain)-1; i < j; i, j = i+1, j-1 {
+			chain[i], chain[j] = chain[j], chain[i]
+		}
+		out[id] = gInfo{
+			running:   state == "running" || state == "runnable" || state == "syscall",
+			lockInSDK: strings.Contains(g, "sync.(*Mutex).Lock") && strings.Contains(g, "otel/sdk/trace."),
+			stack:     strings.Join(fns, "<"),
+			chain:     strings.Join(chain, ">"),
+			text:      g,
+		}
+	}
+	return dump, out
 }
 
 func (st *scState) emit(ev map[string]any) {
@@ -384,8 +534,25 @@ func digest(ro sdktrace.ReadOnlySpan) string {
 	return b.String()
 }
 
+// ---------------------------------------------------------------- scripted sampler
+// decSampler answers RecordAndSample or RecordOnly for every span: a RecordOnly span is a recording span
+// (it goes through every processor) whose trace flags lack the sampled bit.
+type decSampler struct{ recordOnly bool }
+
+func (d decSampler) ShouldSample(p sdktrace.SamplingParameters) sdktrace.SamplingResult {
+	dec := sdktrace.RecordAndSample
+	if d.recordOnly {
+		dec = sdktrace.RecordOnly
+	}
+	return sdktrace.SamplingResult{Decision: dec, Tracestate: trace.SpanContextFromContext(p.ParentContext).TraceState()}
+}
+func (d decSampler) Description() string { return "decSampler" }
+
 // ---------------------------------------------------------------- recording processor
-type recProc struct{ idx int }
+type recProc struct {
+	idx int
+	tp  *sdktrace.TracerProvider // set for the processors of a scenario (callbacks may call back into the provider)
+}
 
 func (p *recProc) OnStart(_ context.Context, s sdktrace.ReadWriteSpan) {
 	pi := me()
@@ -433,7 +600,41 @@ func (p *recProc) OnEnd(ro sdktrace.ReadOnlySpan) {
 	}
 	st.mu.Unlock()
 }
-func (p *recProc) Shutdown(context.Context) error   { return nil }
+
+// Shutdown is user code the provider runs (natural gate x@proc.Shutdown, taken at p1 only); it may call back
+// into the provider (reentReg) or wait for a worker that does (waitFor).
+func (p *recProc) Shutdown(ctx context.Context) error {
+	pi := me()
+	if pi == nil || p.idx != 1 || p.tp == nil {
+		return nil
+	}
+	st := pi.st
+	st.gate(pi.name, "proc.Shutdown")
+	if st.sc.ReentReg {
+		p.tp.RegisterSpanProcessor(&recProc{idx: 97})
+	}
+	if strings.HasPrefix(pi.name, "s") {
+		var wg sync.WaitGroup
+		for k := st.sc.Regs - st.sc.WaitFor + 1; k <= st.sc.Regs; k++ {
+			wg.Add(1)
+			st.spawn(fmt.Sprintf("g%d", k), &wg, func(name string) {
+				late := &recProc{idx: st.sc.NProcs + k}
+				st.arrive(name + "@call")
+				st.emit(map[string]any{"ev": "Call", "op": "Reg", "proc": name, "span": 0, "arg": late.idx})
+				p.tp.RegisterSpanProcessor(late)
+				st.emit(map[string]any{"ev": "Ret", "op": "Reg", "proc": name, "span": 0, "arg": late.idx, "val": false})
+				st.arrive(name + "@ret+")
+			})
+		}
+		done := make(chan struct{})
+		go func() { wg.Wait(); close(done) }()
+		select {
+		case <-done:
+		case <-ctx.Done():
+		}
+	}
+	return nil
+}
 func (p *recProc) ForceFlush(context.Context) error { return nil }
 
 func (st *scState) reread() {
@@ -471,21 +672,26 @@ func runScenario(scn int, sc Scenario, tw *vh.TraceWriter, res *vh.Result, hooks
 	sched.Timeout = 150 * time.Millisecond
 	sched.MaxSleep = 60 * time.Microsecond
 	sched.KeepLog = os.Getenv("VERIF_C10_DEBUG") != ""
-	st := &scState{scn: scn, tw: tw, sched: sched, scripted: sc.Script != nil, lim: sc.Lim, spans: map[trace.SpanID]int{}, ets: map[int][]time.Time{},
+	st := &scState{scn: scn, tw: tw, sched: sched, scripted: sc.Script != nil, sc: sc, lim: sc.Lim, spans: map[trace.SpanID]int{}, ets: map[int][]time.Time{},
 		kinds: map[int]string{}, rw: map[int]sdktrace.ReadWriteSpan{}, handed: make([]int, sc.NProcs+sc.Regs), child: -1}
 	cur.Store(st)
-	st.emit(map[string]any{"ev": "Cfg", "rt": sc.RT, "nprocs": sc.NProcs, "hooks": hooks, "name": sc.Name, "lim": sc.Lim})
+	st.emit(map[string]any{"ev": "Cfg", "rt": sc.RT, "nprocs": sc.NProcs, "hooks": hooks, "name": sc.Name, "lim": sc.Lim, "sampled": !sc.RecordOnly})
 
-	opts := []sdktrace.TracerProviderOption{sdktrace.WithSampler(sdktrace.AlwaysSample())}
+	opts := []sdktrace.TracerProviderOption{sdktrace.WithSampler(decSampler{sc.RecordOnly})}
+	rps := []*recProc{}
 	if sc.Lim > 0 {
 		l := sdktrace.NewSpanLimits()
 		l.EventCountLimit, l.LinkCountLimit, l.AttributeCountLimit = sc.Lim, sc.Lim, sc.Lim
 		opts = append(opts, sdktrace.WithRawSpanLimits(l))
 	}
 	for i := 1; i <= sc.NProcs; i++ {
-		opts = append(opts, sdktrace.WithSpanProcessor(&recProc{idx: i}))
+		rps = append(rps, &recProc{idx: i})
+		opts = append(opts, sdktrace.WithSpanProcessor(rps[i-1]))
 	}
 	tp := sdktrace.NewTracerProvider(opts...)
+	for _, rp := range rps {
+		rp.tp = tp
+	}
 	tracer := tp.Tracer("c10")
 
 	self := &procInfo{name: "main", st: st}
@@ -526,20 +732,19 @@ func runScenario(scn int, sc Scenario, tw *vh.TraceWriter, res *vh.Result, hooks
 	defer sdktrace.SetVerifHook(nil)
 
 	var wg sync.WaitGroup
-	var live sync.Map
 	begin := make(chan struct{})
 	var nstarted, arrived int64
 	start := func(name string, f func(r *rand.Rand)) {
 		wg.Add(1)
 		nstarted++
-		live.Store(name, true)
+		st.live.Store(name, true)
 		r := rand.New(rand.NewSource(rng.Int63()))
 		go func() {
 			pi := &procInfo{name: name, st: st}
 			id := goid()
 			procs.Store(id, pi)
 			defer wg.Done()
-			defer live.Delete(name)
+			defer st.live.Delete(name)
 			defer procs.Delete(id)
 			defer func() {
 				if x := recover(); x != nil {
@@ -704,7 +909,26 @@ func runScenario(scn int, sc Scenario, tw *vh.TraceWriter, res *vh.Result, hooks
 			}
 		})
 	}
-	for i := 1; i <= sc.Regs; i++ {
+	for i := 1; i <= sc.Stoppers; i++ {
+		name := fmt.Sprintf("s%d", i)
+		start(name, func(r *rand.Rand) {
+			jitter(r)
+			call(name, "SD", 0, 0, func() bool { _ = tp.Shutdown(context.Background()); return false })
+		})
+	}
+	for i := 1; i <= sc.Unregs; i++ {
+		name := fmt.Sprintf("u%d", i)
+		start(name, func(r *rand.Rand) {
+			jitter(r)
+			call(name, "Unreg", 0, 1, func() bool {
+				if len(rps) > 0 {
+					tp.UnregisterSpanProcessor(rps[0])
+				}
+				return false
+			})
+		})
+	}
+	for i := 1; i <= sc.Regs-sc.WaitFor; i++ {
 		name := fmt.Sprintf("g%d", i)
 		late := &recProc{idx: sc.NProcs + i}
 		start(name, func(r *rand.Rand) {
@@ -747,44 +971,10 @@ func runScenario(scn int, sc Scenario, tw *vh.TraceWriter, res *vh.Result, hooks
 	// (each bounded by Sched.Timeout), so a scenario that has not finished after this bound while a
 	// goroutine sits in sync.Mutex.Lock inside sdk/trace is a deadlock -- the subject of the property.
 	bound := 20*time.Second + time.Duration(len(sc.Script))*sched.Timeout
-	await := func() bool {
-		done := make(chan struct{})
-		go func() { wg.Wait(); close(done) }()
-		select {
-		case <-done:
-			return false
-		case <-time.After(bound):
-		}
-		blocked := []string{}
-		live.Range(func(k, _ any) bool { blocked = append(blocked, k.(string)); return true })
-		sort.Strings(blocked)
-		// a goroutine that merely waits its turn on a slow machine makes progress between two dumps;
-		// deadlock = the same goroutines sit in Mutex.Lock inside sdk/trace in both, and nobody finished
-		dump, w1 := lockWaiters()
-		time.Sleep(3 * time.Second)
-		_, w2 := lockWaiters()
-		still := []string{}
-		live.Range(func(k, _ any) bool { still = append(still, k.(string)); return true })
-		dead := len(still) == len(blocked)
-		mine := map[string]bool{} // goroutines of THIS scenario (earlier abandoned ones stay blocked forever)
-		procs.Range(func(k, v any) bool {
-			if v.(*procInfo).st == st {
-				mine[fmt.Sprintf("goroutine %d", k.(uint64))] = true
-			}
-			return true
-		})
-		n := 0
-		for g := range w1 {
-			if w2[g] && mine[g] {
-				n++
-			}
-		}
-		dead = dead && n > 0
-		st.emit(map[string]any{"ev": "Stuck", "deadlock": dead, "procs": blocked})
-		res.Count("scenarios_stuck", 1)
-		res.Sample(map[string]any{"stuck_scenario": sc, "blocked": blocked, "goroutines": dump[:min(len(dump), 6000)]})
-		return true
+	if sc.Stoppers+sc.Unregs > 0 { // tiny provider-level scenarios; a re-entrant deadlock is expected to be seen often
+		bound = 3*time.Second + time.Duration(len(sc.Script))*sched.Timeout
 	}
+	await := func() bool { return st.watch(&wg, bound, 3*time.Second, res) }
 	stuck = await()
 	if !stuck {
 		// every call has returned: read the end time, IsRecording and the kept snapshots once more
@@ -844,19 +1034,6 @@ func runScenario(scn int, sc Scenario, tw *vh.TraceWriter, res *vh.Result, hooks
 	return stuck
 }
 
-// lockWaiters returns a goroutine dump and the ids of the goroutines blocked in sync.Mutex.Lock called from sdk/trace.
-func lockWaiters() (string, map[string]bool) {
-	buf := make([]byte, 4<<20)
-	dump := string(buf[:runtime.Stack(buf, true)])
-	w := map[string]bool{}
-	for _, g := range strings.Split(dump, "\n\n") {
-		if strings.Contains(g, "sync.(*Mutex).Lock") && strings.Contains(g, "otel/sdk/trace.") {
-			w[strings.SplitN(g, " [", 2)[0]] = true
-		}
-	}
-	return dump, w
-}
-
 func randomScenario(r *rand.Rand) Scenario {
 	firsts := []string{"attrs", "event", "link", "error", "uerror", "uerror"}
 	sc := Scenario{
@@ -864,7 +1041,7 @@ func randomScenario(r *rand.Rand) Scenario {
 		MutsPer: 1 + r.Intn(3), Children: r.Intn(3), Readers: r.Intn(3), ReadsPer: 1 + r.Intn(3), ETimers: r.Intn(2),
 		Perturb: []float64{0, 0.3, 0.7}[r.Intn(3)], Seed: r.Int63(), Muts: []string{}, Tight: r.Intn(3) == 0,
 		Provs: r.Intn(3) / 2, Regs: r.Intn(4) / 2,
-		Lim: []int{0, 0, 1, 2, 3}[r.Intn(5)], Panickers: r.Intn(3) / 2,
+		Lim: []int{0, 0, 1, 2, 3}[r.Intn(5)], Panickers: r.Intn(3) / 2, RecordOnly: r.Intn(3) == 0,
 	}
 	for i, n := 0, r.Intn(4); i < n; i++ {
 		sc.Muts = append(sc.Muts, firsts[r.Intn(len(firsts))])
@@ -881,13 +1058,18 @@ func randomScenario(r *rand.Rand) Scenario {
 
 // countProc counts OnEnd calls and distinct end times of the span currently under stress (probe, bulk).
 type countProc struct {
-	n   atomic.Int64
-	mu  sync.Mutex
-	ets []time.Time
+	child atomic.Int64
+	n     atomic.Int64
+	mu    sync.Mutex
+	ets   []time.Time
 }
 
 func (p *countProc) OnStart(context.Context, sdktrace.ReadWriteSpan) {}
 func (p *countProc) OnEnd(ro sdktrace.ReadOnlySpan) {
+	if ro.Name() == "bc" { // a child of the span under stress
+		return
+	}
+	p.child.Store(int64(ro.ChildSpanCount()))
 	p.n.Add(1)
 	et := ro.EndTime()
 	p.mu.Lock()
@@ -998,6 +1180,7 @@ func probe() {
 	}
 	setRT(false)
 	out["user_code"] = probeUserCode()
+	out["provider"] = probeProvider()
 	b, _ := json.Marshal(out)
 	fmt.Println(string(b))
 }
@@ -1089,6 +1272,38 @@ func probeUserCode() map[string]string {
 	return res
 }
 
+// probeProvider: does a RegisterSpanProcessor call made from inside a processor's Shutdown return while
+// TracerProvider.Shutdown runs (the lock-free isShutdown pre-check), and does UnregisterSpanProcessor run the
+// processor's Shutdown while holding the provider lock (a Tracer() call inside it then blocks)?
+func probeProvider() map[string]any {
+	try := func(via, act string) bool {
+		st := &scState{sched: vh.NewSched(nil, 1)}
+		rp := &reProc{st: st, other: &nopProc{}, cb: "Shutdown", act: act}
+		tp := sdktrace.NewTracerProvider(sdktrace.WithSpanProcessor(rp))
+		rp.tp = tp
+		done := make(chan struct{})
+		go func() {
+			if via == "Shutdown" {
+				_ = tp.Shutdown(context.Background())
+			} else {
+				tp.UnregisterSpanProcessor(rp)
+			}
+			close(done)
+		}()
+		select {
+		case <-done:
+			return true
+		case <-time.After(1500 * time.Millisecond):
+			return false
+		}
+	}
+	unreg := "locked"
+	if try("Unregister", "tracer") {
+		unreg = "unlocked"
+	}
+	return map[string]any{"precheck": try("Shutdown", "register"), "unreg": unreg}
+}
+
 type keepProc struct {
 	ro sdktrace.ReadOnlySpan
 	d0 string
@@ -1106,17 +1321,29 @@ func (p *keepProc) ForceFlush(context.Context) error                { return nil
 func bulk(n, enders int, tw *vh.TraceWriter, res *vh.Result) {
 	sdktrace.SetVerifHook(nil)
 	cps := []*countProc{{}, {}}
-	tp := sdktrace.NewTracerProvider(sdktrace.WithSpanProcessor(cps[0]), sdktrace.WithSpanProcessor(cps[1]))
-	tracer := tp.Tracer("c10-bulk")
+	// two providers: every other span is RecordOnly (recording, not sampled)
+	tracers := []trace.Tracer{}
+	for _, ro := range []bool{false, true} {
+		tp := sdktrace.NewTracerProvider(sdktrace.WithSpanProcessor(cps[0]), sdktrace.WithSpanProcessor(cps[1]), sdktrace.WithSampler(decSampler{ro}))
+		tracers = append(tracers, tp.Tracer("c10-bulk"))
+	}
 	rng := rand.New(rand.NewSource(vh.Seed()))
 	phase := func(sc, n int, rtOn bool) {
 		setRT(rtOn)
-		tw.Emit(map[string]any{"ev": "Cfg", "sc": sc, "rt": rtOn, "nprocs": 2, "hooks": false, "name": "bulk", "lim": 0})
+		tw.Emit(map[string]any{"ev": "Cfg", "sc": sc, "rt": rtOn, "nprocs": 2, "hooks": false, "name": "bulk", "lim": 0, "sampled": true})
 		var wg sync.WaitGroup
 		for i := 0; i < n; i++ {
-			_, s := tracer.Start(context.Background(), "b")
+			tracer := tracers[i%2]
+			ctx, s := tracer.Start(context.Background(), "b")
 			if rng.Intn(2) == 0 {
 				s.SetAttributes(attribute.Int("a", i), attribute.Int("a", i+1), attribute.Int("b", i))
+			}
+			children := 0
+			if rng.Intn(4) == 0 { // children started (and ended) before the end: the count must be exact
+				for children = 0; children < 1+i%2; children++ {
+					_, c := tracer.Start(ctx, "bc")
+					c.End()
+				}
 			}
 			var flag atomic.Int32
 			k := enders
@@ -1147,7 +1374,8 @@ func bulk(n, enders int, tw *vh.TraceWriter, res *vh.Result) {
 			if handed[0] > 1 || nets > 1 {
 				res.Count("bulk_spans_delivered_more_than_once", 1)
 			}
-			tw.Emit(map[string]any{"ev": "Bulk", "sc": sc, "span": i, "enders": k, "handed": handed, "nets": nets, "rec": s.IsRecording()})
+			tw.Emit(map[string]any{"ev": "Bulk", "sc": sc, "span": i, "enders": k, "handed": handed, "nets": nets, "rec": s.IsRecording(),
+				"sampled": i%2 == 0, "children": children, "child": int(cps[0].child.Load())})
 		}
 		res.Count("bulk_spans", int64(n))
 	}
@@ -1169,7 +1397,7 @@ func bulkMut(sc0, n int, tw *vh.TraceWriter, res *vh.Result, rng *rand.Rand) {
 		l.EventCountLimit, l.LinkCountLimit, l.AttributeCountLimit = lim, lim, lim
 		tp := sdktrace.NewTracerProvider(sdktrace.WithSpanProcessor(kp), sdktrace.WithRawSpanLimits(l))
 		tracer := tp.Tracer("c10-bulkmut")
-		tw.Emit(map[string]any{"ev": "Cfg", "sc": sc0 + lim - 1, "rt": false, "nprocs": 1, "hooks": false, "name": "bulkmut", "lim": lim})
+		tw.Emit(map[string]any{"ev": "Cfg", "sc": sc0 + lim - 1, "rt": false, "nprocs": 1, "hooks": false, "name": "bulkmut", "lim": lim, "sampled": true})
 		var wg sync.WaitGroup
 		for i := 0; i < 2*n/3; i++ {
 			_, s := tracer.Start(context.Background(), "b")
@@ -1234,9 +1462,180 @@ func bulkMut(sc0, n int, tw *vh.TraceWriter, res *vh.Result, rng *rand.Rand) {
 	}
 }
 
+// ---------------------------------------------------------------- re-entrant processors
+// Processor callbacks (OnStart, OnEnd, ForceFlush, Shutdown) are user code that may call back into the
+// provider / tracer / span API. reProc performs one planned action inside one planned callback; the driver
+// makes every callback happen (Shutdown once through TracerProvider.Shutdown, once through
+// UnregisterSpanProcessor), alone and with other goroutines using the provider at the same time; a watchdog
+// decides between finished / deadlock (all parked in SDK frames, two dumps) / inconclusive.
+type reProc struct {
+	st       *scState
+	tp       *sdktrace.TracerProvider
+	other    *nopProc
+	cb, act  string
+	busy     atomic.Bool
+	done     atomic.Int64 // times the planned action ran to completion
+	spawnWG  sync.WaitGroup
+	nworkers atomic.Int64
+	lives    sync.Map // span id -> ReadWriteSpan seen in OnStart
+}
+
+type nopProc struct{}
+
+func (nopProc) OnStart(context.Context, sdktrace.ReadWriteSpan) {}
+func (nopProc) OnEnd(sdktrace.ReadOnlySpan)                     {}
+func (nopProc) Shutdown(context.Context) error                  { return nil }
+func (nopProc) ForceFlush(context.Context) error                { return nil }
+
+func (p *reProc) run(cb string, ctx context.Context, rw sdktrace.ReadWriteSpan, ro sdktrace.ReadOnlySpan) {
+	if cb != p.cb || !p.busy.CompareAndSwap(false, true) { // not the planned callback, or nested inside our own action
+		return
+	}
+	defer p.busy.Store(false)
+	worker := func(f func()) { // a helper goroutine the callback waits for (honouring ctx)
+		name := fmt.Sprintf("w%d", p.nworkers.Add(1))
+		done := make(chan struct{})
+		p.spawnWG.Add(1)
+		p.st.spawn(name, &p.spawnWG, func(string) { f(); close(done) })
+		select {
+		case <-done:
+		case <-ctx.Done():
+		}
+	}
+	switch p.act {
+	case "tracer":
+		_, s := p.tp.Tracer("reent").Start(ctx, "reent")
+		s.SetAttributes(attribute.Int("x", 1))
+		s.End()
+	case "register":
+		p.tp.RegisterSpanProcessor(&nopProc{})
+	case "unregister-self":
+		p.tp.UnregisterSpanProcessor(p)
+	case "unregister-other":
+		p.tp.UnregisterSpanProcessor(p.other)
+	case "forceflush":
+		_ = p.tp.ForceFlush(ctx)
+	case "shutdown":
+		_ = p.tp.Shutdown(ctx)
+	case "span": // the span being processed
+		if rw != nil {
+			rw.SetAttributes(attribute.Int("cb", 1))
+			rw.AddEvent("cb")
+			rw.SetName("cb")
+			_, _, _, _ = rw.IsRecording(), rw.Attributes(), rw.Events(), rw.ChildSpanCount()
+		}
+		if ro != nil {
+			_, _, _, _, _ = ro.Name(), ro.Attributes(), ro.Events(), ro.EndTime(), ro.ChildSpanCount()
+			if v, ok := p.lives.Load(ro.SpanContext().SpanID()); ok { // the live span the processor kept from OnStart
+				live := v.(sdktrace.ReadWriteSpan)
+				_, _, _ = live.IsRecording(), live.EndTime(), live.Attributes()
+				live.SetAttributes(attribute.Int("late", 1))
+				live.End()
+			}
+		}
+	case "worker-register":
+		worker(func() { p.tp.RegisterSpanProcessor(&nopProc{}) })
+	case "worker-unregister":
+		worker(func() { p.tp.UnregisterSpanProcessor(p.other) })
+	case "worker-tracer":
+		worker(func() { _, s := p.tp.Tracer("reent").Start(context.Background(), "reent"); s.End() })
+	}
+	p.done.Add(1)
+}
+
+func (p *reProc) OnStart(ctx context.Context, s sdktrace.ReadWriteSpan) {
+	if s.Name() != "reent" {
+		p.lives.Store(s.SpanContext().SpanID(), s)
+		p.run("OnStart", ctx, s, nil)
+	}
+}
+func (p *reProc) OnEnd(s sdktrace.ReadOnlySpan) {
+	if s.Name() != "reent" {
+		p.run("OnEnd", context.Background(), nil, s)
+	}
+}
+func (p *reProc) ForceFlush(ctx context.Context) error {
+	p.run("ForceFlush", ctx, nil, nil)
+	return nil
+}
+func (p *reProc) Shutdown(ctx context.Context) error { p.run("Shutdown", ctx, nil, nil); return nil }
+
+func reentMatrix(tw *vh.TraceWriter, res *vh.Result, hooks bool) {
+	sdktrace.SetVerifHook(nil)
+	setRT(false)
+	cbs := []string{"OnStart", "OnEnd", "ForceFlush", "Shutdown"}
+	acts := []string{"tracer", "register", "unregister-self", "unregister-other", "forceflush", "shutdown", "span",
+		"worker-register", "worker-unregister", "worker-tracer"}
+	scn := 0
+	deadly := map[string]bool{} // combinations seen to deadlock are not repeated with concurrent users
+	for _, conc := range []bool{false, true} {
+		for _, cb := range cbs {
+			for _, act := range acts {
+				for _, via := range []string{"Shutdown", "Unregister"} {
+					key := cb + "/" + act + "/" + via
+					if (cb != "Shutdown" && via == "Unregister") || deadly[key] {
+						continue
+					}
+					name := fmt.Sprintf("reent:%s:%s:via-%s:conc=%v", cb, act, via, conc)
+					sc := Scenario{Name: name}
+					st := &scState{scn: scn, tw: tw, sched: vh.NewSched(nil, 1), sc: sc, spans: map[trace.SpanID]int{},
+						ets: map[int][]time.Time{}, kinds: map[int]string{}, rw: map[int]sdktrace.ReadWriteSpan{}}
+					cur.Store(st)
+					st.emit(map[string]any{"ev": "Cfg", "rt": false, "nprocs": 0, "hooks": hooks, "name": name, "lim": 0, "sampled": true})
+					rp := &reProc{st: st, other: &nopProc{}, cb: cb, act: act}
+					tp := sdktrace.NewTracerProvider(sdktrace.WithSpanProcessor(rp), sdktrace.WithSpanProcessor(rp.other),
+						sdktrace.WithSampler(decSampler{scn%3 == 2}))
+					rp.tp = tp
+					var wg sync.WaitGroup
+					wg.Add(1)
+					st.spawn("d", &wg, func(string) {
+						ctx, s := tp.Tracer("reent-driver").Start(context.Background(), "driven")
+						_, c := tp.Tracer("reent-driver").Start(ctx, "driven-child")
+						c.End()
+						s.End()
+						_ = tp.ForceFlush(context.Background())
+						if via == "Shutdown" {
+							_ = tp.Shutdown(context.Background())
+						} else {
+							tp.UnregisterSpanProcessor(rp)
+							_ = tp.Shutdown(context.Background())
+						}
+						rp.spawnWG.Wait()
+					})
+					if conc {
+						for i := 0; i < 2; i++ {
+							wg.Add(1)
+							st.spawn(fmt.Sprintf("c%d", i), &wg, func(string) {
+								for k := 0; k < 20; k++ {
+									_, s := tp.Tracer(fmt.Sprintf("t%d", k%3)).Start(context.Background(), "reent")
+									s.End()
+									if k%5 == 0 {
+										_ = tp.ForceFlush(context.Background())
+									}
+								}
+							})
+						}
+					}
+					if st.watch(&wg, time.Second, 2*time.Second, res) {
+						deadly[key] = true
+					}
+					if rp.done.Load() == 0 && !deadly[key] {
+						res.Count("reent_action_never_ran", 1)
+					}
+					st.emit(map[string]any{"ev": "EndScenario", "quiescent": !deadly[key], "name": name, "desync": 0,
+						"handed": []int{}, "nfull": 0, "child": -1})
+					res.Executed++
+					res.Count("reent_scenarios", 1)
+					scn++
+				}
+			}
+		}
+	}
+}
+
 func main() {
 	if len(os.Args) < 2 {
-		fmt.Println("usage: c10 probe|random|scripts|bulk ...")
+		fmt.Println("usage: c10 probe|random|scripts|bulk|reent ...")
 		os.Exit(3)
 	}
 	if os.Args[1] == "probe" {
@@ -1257,6 +1656,8 @@ func main() {
 	otel.SetErrorHandler(otel.ErrorHandlerFunc(func(error) {}))
 	var scs []Scenario
 	switch os.Args[1] {
+	case "reent":
+		reentMatrix(tw, res, *hooks)
 	case "bulk":
 		bulk(*n, *enders, tw, res)
 		res.Executed = int64(*n + *n/8 + 2**n/3*3)
